@@ -6,6 +6,7 @@ out=$(mktemp /tmp/seeded_eval_XXXXXX.json)
 trap 'rm -f "$out"' EXIT
 for d in ${@:-seeded/C*-*}; do
   if grep -q '"retired"' $d/meta.json; then echo "$d retired"; continue; fi
+  if grep -q '"not_judged"' $d/meta.json; then echo "$d not judged (the statement leaves it open)"; continue; fi
   id=$(echo $d | sed 's|seeded/\(C[0-9]*\)-.*|\1|')
   # a change written for one property but decided by another one names the deciding check in its meta.json
   other=$(python3 -c "import json,sys; print(json.load(open('$d/meta.json')).get('evaluate_with',''))")
